@@ -226,6 +226,7 @@ let parse_top (s : string) : top * string =
     match List.hd f, mparts with
     | "new", _ -> TNew (nat 1, bytes_of_hex (List.nth f 2))
     | "reads", _ | "readsweep", _ -> TReads (nat 1)
+    | ("fromint" | "fromuint" | "frombool" | "sfill"), ["mctor"; v] -> TFreshMoveCtor (nat 1, nat 1, bytes_of_hex v)
     | _, ["nrvo"; v] -> TFreshNRVO (nat 1, nat 2, bytes_of_hex v)
     | _, ["mctor"; v] -> TFreshMoveCtor (nat 1, nat 2, bytes_of_hex v)
     | _, ["masg"; v] -> TFreshMoveAsg (nat 1, nat 2, bytes_of_hex v)
